@@ -182,8 +182,23 @@ def gen_plan(rng, tier, idx):
             eq = eqs[0]
         if eq.get("vector") and cls == "PolarSymGrid":
             eq = eqs[0]
-        plan.update(eq=eq, bc=rng.choice(BCS[:9] if not eq.get("vector") else BCS_TENSOR), steps=rng.randint(1, 5), dt=1e-4,
-                    adaptive=rng.random() < 0.25, tracker_every=rng.choice([1, 2, None]))
+        # explicit time step well inside the stability limit of the equation on this grid (dx**2 for second-order, dx**4
+        # for fourth-order equations): otherwise one-ulp differences between the cell size of a sub-grid and of the base
+        # grid are amplified by many orders of magnitude within a few steps and "equal to round-off" loses its meaning
+        if cls in ("UnitGrid",):
+            dx_min = 1.0
+        elif cls == "CartesianGrid":
+            dx_min = min((b[1] - b[0]) / n for b, n in zip(grid["bounds"], grid["shape"]))
+        elif cls == "CylindricalSymGrid":
+            r = grid["radius"]
+            dr = ((r[1] - r[0]) if isinstance(r, list) else r) / grid["shape"][0]
+            dx_min = min(dr, (grid["bounds_z"][1] - grid["bounds_z"][0]) / grid["shape"][1])
+        else:
+            r = grid["radius"]
+            dx_min = ((r[1] - r[0]) if isinstance(r, list) else r) / grid["shape"][0]
+        order = 4 if eq["cls"] == "CahnHilliardPDE" else 2
+        plan.update(eq=eq, bc=rng.choice(BCS[:9] if not eq.get("vector") else BCS_TENSOR), steps=rng.randint(1, 5),
+                    dt=min(1e-3, 0.02 * dx_min ** order), adaptive=rng.random() < 0.25, tracker_every=rng.choice([1, 2, None]))
         if plan["tracker_every"] and rng.random() < 0.35:
             # fault: the tracker (which runs on the main rank only) requests a stop at its m-th call;
             # the client ranks are somewhere inside their stepping loop and have to be released
@@ -586,7 +601,10 @@ def execute(plan):
         if exact:
             return bool(np.array_equal(a, b, equal_nan=True))
         scale = max(float(np.nanmax(np.abs(b))) if b.size else 0.0, term_scale)
-        return bool(np.allclose(a, b, rtol=1e-10, atol=1e-11 * scale, equal_nan=True))
+        # an adaptive run chooses its steps from an error estimate and runs them up to the stability limit, where
+        # round-off differences between the two computations are amplified; a wrong ghost cell is an O(1e-2) effect
+        rtol = 1e-6 if plan.get("adaptive") else 1e-10
+        return bool(np.allclose(a, b, rtol=rtol, atol=rtol * 0.1 * scale, equal_nan=True))
 
     if plan["script"] == "solve":
         if r0 is None:
